@@ -564,3 +564,11 @@ Example C08_canonical_blank_key :
   /\ parse (Forced Slash) true (String "/"%char tab) = Ok (segs_of l)
   /\ wfc Dot l2 = true /\ (do c <- canon Dot (render_ref Dot l2); parse (Forced Dot) true c) = Ok (segs_of l2).
 Proof. vm_compute. repeat split; reflexivity. Qed.
+
+(* Every remaining statement of this file, so that none is left unaudited. *)
+Print Assumptions C08_section_syms_ok.
+Print Assumptions C08_key_syms_ok.
+Print Assumptions C08_spellings_ok.
+Print Assumptions C08_key_specials_cover.
+Print Assumptions C08_escape_symbol_scan.
+Print Assumptions C08_ensure_escaped_written.
